@@ -303,6 +303,8 @@ def count_jumps(fn, limit=None) -> tuple[int, tuple | None]:
 
 
 PHASE1_SECONDS = 2.0
+HARD_BUDGET = 10_000_000
+SLOW_MAX = [0]  # largest step count of a slow input that did terminate (evidence)
 
 
 def guarded(fn, base_fn=None):
@@ -319,13 +321,15 @@ def guarded(fn, base_fn=None):
         pass
     finally:
         signal.signal(signal.SIGALRM, old)
-    base_jumps = 0
-    if base_fn is not None:
-        base_jumps, base_out = count_jumps(base_fn, limit=1_000_000)
-        if base_out and base_out[0] == "budget":
-            base_jumps = 0  # the undamaged base does not terminate either: it is judged on its own
-    limit = 30 * base_jumps + 20_000
-    _, out = count_jumps(fn, limit=limit)
+    # Phase 2: simulated time.  The call is re-run under the JUMP clock with a flat budget of loop
+    # back-edges in repository code.  A terminating parse of a pool-sized text does not approach it (the
+    # heaviest seen, a 150-character `match` statement going through the diagnostic second pass, needs
+    # 4.5e5) and a loop without progress always exceeds it.  A budget relative to the undamaged base was
+    # tried first and gave a false alarm: a damaged text that fails takes the second pass, which can cost
+    # 45 x the valid base.  Completion here is recorded as a slow input, never as a violation.
+    n, out = count_jumps(fn, limit=HARD_BUDGET)
+    if out and out[0] != "budget":
+        SLOW_MAX[0] = max(SLOW_MAX[0], n)
     return out, True
 
 
